@@ -127,17 +127,22 @@ OvAcl(g) == << Ace("permit", "ip", T("grp", g), T("any", "")) >>
 F7 ==
   \E a \in InjSeqs(GLines("g0-DRC-0", "gx"), MaxLen), b \in InjSeqs(GLines("g0", "g1"), MaxLen),
      da, ta, tb \in {{"h1"}, {"h1", "h2"}},
-     ovl \in SUBSET {"foreign-unbound", "dmz-bound", "foreign-uses-drc", "dmz-uses-gx", "route6"} :
+     ovl \in SUBSET {"foreign-unbound", "dmz-bound", "foreign-uses-drc", "dmz-uses-gx", "route6", "dmz-out"} :
+    \* dmz-out: the unknown interface has an outgoing access-group besides the incoming one
+    /\ ("dmz-out" \in ovl => "dmz-bound" \in ovl \/ "dmz-uses-gx" \in ovl)
     /\ (("g0" \notin UsedGroups(b)) => ta = {"h1"}) /\ (("g1" \notin UsedGroups(b)) => tb = {"h1"})
     /\ LET gxm == {"h2", "n34"}
            acls == [n \in {"inside_in"}
                          \cup (IF "foreign-unbound" \in ovl \/ "foreign-uses-drc" \in ovl THEN {"foreign"} ELSE {})
                          \cup (IF "dmz-bound" \in ovl \/ "dmz-uses-gx" \in ovl THEN {"dmz_in"} ELSE {})
+                         \cup (IF "dmz-out" \in ovl THEN {"dmz_out"} ELSE {})
                     |-> CASE n = "inside_in" -> a
+                          [] n = "dmz_out" -> <<Ace("permit", "ip", T("host", "h4"), T("any", ""))>>
                           [] n = "foreign" -> IF "foreign-uses-drc" \in ovl THEN OvAcl("g0-DRC-0") ELSE OvAcl("gx")
                           [] n = "dmz_in"  -> IF "dmz-uses-gx" \in ovl THEN OvAcl("gx") ELSE OvAcl("g0-DRC-0")]
            binds == {B("inside_in", "inside", "in")}
                     \cup (IF "dmz_in" \in DOMAIN acls THEN {B("dmz_in", "dmz", "in")} ELSE {})
+                    \cup (IF "dmz_out" \in DOMAIN acls THEN {B("dmz_out", "dmz", "out")} ELSE {})
            routes == IF "route6" \in ovl THEN {[fam |-> "6", if |-> "inside", dst |-> "n12", gw |-> "gA"]} ELSE {}
        IN /\ dev = Cfg(acls, [n \in {"g0-DRC-0", "gx"} |-> IF n = "gx" THEN G(gxm) ELSE G(da)],
                        binds, routes, {"inside", "dmz"})
